@@ -233,6 +233,7 @@ async fn reload_case(pki: &Pki, tag: &str, c: &[u64]) -> Vec<u64> {
     let mut conns = vec![];
     let mut i = 2;
     let (ccert, ckey) = (p(d, "cli1.pem"), p(d, "cli1.key"));
+    let mut returning: [Option<Arc<rustls::ClientConfig>>; 2] = [None, None];
     while i < c.len() {
         match c[i] {
             0 => {
@@ -265,6 +266,28 @@ async fn reload_case(pki: &Pki, tag: &str, c: &[u64]) -> Vec<u64> {
                     ca_now = ca;
                 }
                 out.push(u64::from(r.is_ok()));
+            }
+            3 if i + 1 < c.len() => {
+                // a returning client: one persistent client configuration (made by the real make_client_config,
+                // verification skipped) whose session cache survives from its earlier connections
+                let k = usize::from(c[i + 1] != 0);
+                i += 2;
+                if returning[k].is_none() {
+                    let (cc, ck) = if k == 0 { (Some(ccert.as_str()), Some(ckey.as_str())) } else { (None, None) };
+                    returning[k] = rusty_penguin_lib::tls::make_client_config(cc, ck, None, true, Some(&["http/1.1"])).await.ok().map(Arc::new);
+                }
+                let mut res = vec![0];
+                if let (Some(cfg), Ok(tcp)) = (returning[k].clone(), TcpStream::connect(("127.0.0.1", srv.port)).await) {
+                    let conn = tokio_rustls::TlsConnector::from(cfg);
+                    if let Ok(Ok(mut s)) = tokio::time::timeout(Duration::from_secs(5), conn.connect(ServerName::try_from("localhost").unwrap(), tcp)).await {
+                        let seen = s.get_ref().1.peer_certificates().and_then(|v| v.first()).map_or(9, |der| pki.seen(der.as_ref()));
+                        // the round trip also lets the client take the session tickets the server sends
+                        if http_roundtrip(&mut s, true).await {
+                            res = vec![1, seen];
+                        }
+                    }
+                }
+                out.extend(res);
             }
             2 if i + 1 < c.len() => {
                 let k = c[i + 1] as usize;
@@ -513,16 +536,25 @@ pub fn generate(a: &Args, out: &mut Out) {
             }
         }
     }
+    // returning clients across reloads: certificate replaced; client CA switched on; client CA switched off
+    for c in [
+        vec![17u64, 2, 0, 0, 3, 0, 3, 1, 1, 1, 1, 0, 3, 0, 3, 1, 1, 1, 2, 1, 3, 0, 3, 1],
+        vec![17, 2, 1, 1, 3, 0, 3, 1, 1, 1, 0, 0, 3, 0, 3, 1, 3, 1, 1, 1, 2, 1, 3, 1, 3, 0],
+    ] {
+        let r = ctx.run_case(&c[1..]);
+        out.emit(&c, &r);
+    }
     for _ in 0..a.n {
         let mut c = vec![17, 2, rng.below(3), rng.below(2)];
         let n = 2 + rng.below(8);
         let mut conns = 0;
         for _ in 0..n {
-            match rng.below(10) {
+            match rng.below(12) {
                 0..=3 => {
                     c.push(0);
                     conns += 1;
                 }
+                10 | 11 => c.extend([3, rng.below(2)]),
                 4..=6 => c.extend([1, u64::from(!rng.chance(1, 5)), rng.below(3), rng.below(2)]),
                 _ => c.extend([2, if conns > 0 && !rng.chance(1, 8) { rng.below(conns) } else { conns + rng.below(2) }]),
             }
